@@ -7,7 +7,7 @@ PROPERTY_MODULES = {
     "C14": ["seed", "pjax_vmap", "state", "extra", "extra2"],
     "C19": ["state", "extra", "extra2"],
     "C20": ["state_space", "state_space2"],
-    "C11": ["adev", "extra", "extra2", "adev2"],
+    "C11": ["adev", "extra", "extra2", "adev2", "pjax_vmap"],
     "C15": ["adev", "extra", "extra2", "adev2"],
     "C13": ["distributions", "pjax_vmap", "extra", "extra2", "adev2"],
     "C17": ["vi", "choicemap", "core_gfi", "adev", "adev2"],
